@@ -13,3 +13,5 @@ import FuraxProofs.Props.C01
 #print axioms Furax.C01.unrelativised_rule_soundness_is_false
 #print axioms Furax.C01.reduce_sound_hypotheses_consistent
 #print axioms Furax.C01.scan_sound_on_every_chain
+#print axioms Furax.C01.structural_rule_soundness_needs_invertibility
+#print axioms Furax.C01.wellformed_is_structOK
